@@ -22,12 +22,12 @@ LEVEL_TEXT = ("All sequences up to length 4 (quick) / 6 (thorough) over a 12-ope
 LEVEL_NOTE = "Trusts numpy and icontract; the record-level clause (pid strictly increasing, pid[k] >= k in every output record) is asserted by the shared output checker in the end-to-end checks (C06, C09, C14 ...)."
 RULE = ("case = all operation sequences of the given length with a fixed two-operation prefix (exhaustive family) or a batch of random sequences; "
         "non-trivial sequence: contains an append, a kill and a compactify followed by another append (the pid-reuse / misalignment pattern); distinct by sequence.")
-MANDATORY = ["append_after_compactify", "kill_then_compactify", "invariant_evaluations", "shadow_comparisons", "particle_variable_follow_pid", "e2e_split_files_checked", "e2e_particle_values_compared"]
+MANDATORY = ["in_place_update_after_assignment_from_another_variable", "append_after_compactify", "kill_then_compactify", "invariant_evaluations", "shadow_comparisons", "particle_variable_follow_pid", "e2e_split_files_checked", "e2e_particle_values_compared"]
 ASSUMPTIONS = ["single-threaded use of State (ladim has no threads)"]
 EXHAUSTIVE = {"quick": True, "thorough": True}
 TIMEOUT = {"quick": 600, "thorough": 3000}
 
-OPS = ["app_scalar", "app_array", "app_bcast", "app_default", "kill_first", "kill_last", "kill_mid", "compact", "set_inst", "set_part", "app_len1", "app_empty"]
+OPS = ["app_scalar", "app_array", "app_bcast", "app_default", "kill_first", "kill_last", "kill_mid", "compact", "set_inst", "set_part", "app_len1", "app_empty", "set_alias"]
 
 
 class InvariantBroken(Exception):
@@ -148,9 +148,19 @@ def _apply(op: str, s, sh: Shadow, ctr: list[int], rng) -> None:
     elif op == "compact":
         s.compactify()
         sh.compact()
+    elif op == "set_alias":
+        # item assignment from arrays that live on: another variable's storage, and a buffer the caller keeps and reuses;
+        # every variable must keep its own values afterwards
+        s["age"] = s.X
+        buf = np.array(s.Z, dtype=float) + 0.125
+        s["Z"] = buf
+        buf += 1000.0
+        for p in sh.present:
+            sh.inst[p]["age"] = sh.inst[p]["X"]
+            sh.inst[p]["Z"] += 0.125
     elif op == "set_inst":
+        s["X"] += 0.5  # in place first: must not leak into any other variable
         s["age"] = s.age + 1.0
-        s["X"] += 0.5
         for p in sh.present:
             sh.inst[p]["age"] += 1.0
             sh.inst[p]["X"] += 0.5
@@ -184,6 +194,7 @@ def _run_seq(st, seq: list[str], rng, cnt: dict, sit: dict) -> dict | None:
     ctr = [0]
     seen_compact_after_kill = False
     killed = False
+    aliased = False
     for i, op in enumerate(seq):
         npid_before = s.npid
         try:
@@ -199,6 +210,12 @@ def _run_seq(st, seq: list[str], rng, cnt: dict, sit: dict) -> dict | None:
         cnt["shadow_comparisons"] = cnt.get("shadow_comparisons", 0) + 1
         if msg:
             return dict(what=f"after operation {i} ({op}): {msg}", seq=seq[: i + 1])
+        if op == "set_alias" and len(sh.present):
+            aliased = True
+        if op == "set_inst" and aliased and len(sh.present):
+            sit["in_place_update_after_assignment_from_another_variable"] = sit.get("in_place_update_after_assignment_from_another_variable", 0) + 1
+        if op in ("compact", "set_alias") or op.startswith("app"):
+            aliased = aliased and op == "set_alias"
         if op.startswith("kill") and len(sh.present):
             killed = True
         if op == "compact" and killed:
@@ -259,7 +276,7 @@ def run_case(case: dict[str, Any], wd: Path) -> dict[str, Any]:
         rng = C.rng_for(case["seed"], 5, case["idx"])
         for _ in range(case["n"]):
             L = int(rng.integers(case["minlen"], case["maxlen"] + 1))
-            p = np.array([2, 2, 1, 1, 2, 2, 3, 3, 1, 1, 1, 1], float)
+            p = np.array([2, 2, 1, 1, 2, 2, 3, 3, 1, 1, 1, 1, 1], float)
             seq = [OPS[i] for i in rng.choice(len(OPS), size=L, p=p / p.sum())]
             nseq += 1
             before = sit.get("append_after_compactify", 0)
